@@ -26,6 +26,9 @@ def main() -> int:
 
     mod = importlib.import_module(f"vf.checks.{doc['property'].lower()}")
     col = Collector()
+    from . import collect
+
+    collect.ACTIVE.update(col=col, out=out)
     desc = doc["desc"]
     try:
         if "replay" in desc:
